@@ -282,10 +282,9 @@ where
         }
 
         let bold = writer.bold();
-        let span = event
-            .parent()
-            .and_then(|id| ctx.span(id))
-            .or_else(|| ctx.lookup_current());
+        // the event's own parent: its explicit parent if it has one, the current
+        // span if it is contextual, and none if it is an explicit root
+        let span = ctx.parent_span();
 
         let scope = span.into_iter().flat_map(|span| span.scope());
 
